@@ -10,8 +10,9 @@ import time
 from . import build
 
 VERIF = build.VERIF
-EVID = os.path.join(VERIF, "evidence")
-REPLAYS = os.path.join(VERIF, "replays")
+_ALT = os.path.realpath(build.REPO) != "/repo"
+EVID = os.path.join(build.CACHE, "evidence") if _ALT else os.path.join(VERIF, "evidence")
+REPLAYS = os.path.join(build.CACHE, "replays") if _ALT else os.path.join(VERIF, "replays")
 KNOWN = os.path.join(VERIF, "known_findings.json")
 NPROC = int(os.environ.get("VERIF_JOBS", "16"))
 
@@ -336,4 +337,42 @@ def main_args(argv=None):
     ap.add_argument("--tier", default=os.environ.get("VERIF_TIER", "quick"), choices=["quick", "thorough"])
     ap.add_argument("--seed", type=int, default=int(os.environ.get("VERIF_SEED", "1") or 1))
     ap.add_argument("--replay", default=None)
-    return ap.parse_args(argv)
+    a = ap.parse_args(argv)
+    if a.replay:
+        sys.exit(replay(a.replay))
+    return a
+
+
+def replay(path):
+    """Re-execute the witness stored in a replay file as far as it is self-contained
+    (Rig R inputs, ldrive histories, harness-binary invocations); otherwise print the
+    witness and the command that regenerates it deterministically (same tier and seed)."""
+    r = json.load(open(path))
+    c = r.get("case") or {}
+    print("replay: property=%s signature=%s" % (r["property"], r["signature"]))
+    print("  " + r["description"][:1000])
+    variant = c.get("variant") if c.get("variant") in ("rel", "dbg", "asan") else "rel"
+    lines = None
+    if c.get("lines"):
+        lines = c["lines"]
+    elif c.get("input") is not None and c.get("decoder"):
+        d = c["decoder"]
+        lines = ["msg\t%s\t%s" % (d, c["input"])] if d in ("v1", "v2c", "v3") else ["value\t%s" % c["input"]]
+    elif c.get("tlv") is not None:
+        lines = ["value\t%s%s" % (c["tlv"], c.get("suffix", ""))]
+    elif c.get("x") is not None and c.get("decoder"):
+        lines = [("value\t%s" if c["decoder"] == "value" else "typed\t" + c["decoder"] + "\t%s") % (c["x"] + c.get("s", ""))]
+    elif c.get("string") is not None:
+        lines = ["oidparse\t" + (c["string"].encode().hex() or "-")]
+    if lines:
+        p, out = ldrive(variant, lines)
+        for ln, o in zip(lines[-20:], out[-20:]):
+            print("  > %s\n  < %s" % (ln[:160], "\t".join(o)[:300]))
+        bad = any(o and o[0] == "panic" for o in out) or len(out) != len(lines)
+        print("replay: %s" % ("reproduced (panic / abort)" if bad else "executed; compare the output above with the description"))
+        return 1 if bad else 0
+    if c.get("args") and c.get("rig") == "R":
+        print("  re-run: harness binary with args %s in build %s" % (c["args"], c.get("variant")))
+    print("  witness: %s" % json.dumps(c, default=_jd)[:3000])
+    print("  to regenerate deterministically: VERIF_SEED=%s ./check %s --tier %s" % (r.get("seed"), r["property"], r.get("tier")))
+    return 0
